@@ -68,7 +68,7 @@ Reg == <<
   F("VolumeMatrix", 3, 0, 0, 1, {1}),
   F("remove_pbc", 4, 0, 0, 0, {}),
   F("time_average", 4, 0, 1, 0, {}),
-  F("spatial_average", 3, 0, 0, 0, {1}),
+  F("spatial_average", 4, 0, 0, 0, {1}),
   F("gaussian_blurring", 2, 0, 0, 0, {1}),
   F("triangle_area", 4, 0, 0, 0, {}),
   F("moment_of_inertia", 4, 0, 0, 0, {}),
